@@ -89,8 +89,7 @@ CHECKS = {
     note="Levels 1-3, custom tables, inputs > 6 bytes, and EVERY assembly body are outside (measured: symbolic sizes/longer inputs do not finish). Default-table streaming is decided only for n=0 (dynamic header parse goes symbolic). "
          "Assumptions: per-query literal code-length class vector, swept completely. Trusted: cbmc, spec/rfc1951.h (self-tested against zlib)."),
  "C10": dict(
-    engine="cbmc-c", category="model_checking", design_ref="DESIGN.md §5b C10",
-    engine_note="+ x86sym for encode_deflate_icf_04/06",
+    engine="cbmc-c + x86sym", category="model_checking", design_ref="DESIGN.md §5b C10",
     technique="CBMC: avail_out sweep on exact-size output objects for the one-shot API; stored-block fallback with SYMBOLIC n <= 200000 and a range-recording memcpy; parameter validation with fully symbolic level/flush/level_buf_size; symbolic execution (x86sym + z3) of the assembled ICF bit emitters",
     text="(a) avail_out 0..bound+9 for n <= 2 (3): COMP_OK whenever avail_out >= n+5*blocks+wrapper, a COMP_OK result is a complete correct stream, no byte written past avail_out, counters consistent. (b) stored fallback for all n <= 200000 symbolically: block count, LEN/NLEN, BFINAL on the last block only, "
          "tiling of the input, total_out formula, no arithmetic wrap; the real stored_len arithmetic at the 65535-byte boundaries. (c) every invalid level/flush/level buffer is rejected with the documented code before any output. "
